@@ -122,6 +122,12 @@ func c06Gen(rng *verifsim.RNG, idx int, tier string) *Plan {
 		p.Faults = append(p.Faults, Fault{Seam: "write", Key: "mc", Count: -1, Lat: int64(rng.Dur(time.Millisecond, 400*time.Millisecond))})
 		p.Class += "+latency"
 	}
+	if p.Class == "mixed-unicast" && rng.Bool(0.4) {
+		// slow unicast transmissions: what one host's RA is waiting for must not
+		// hold up the multicast RAs (they are separate transmissions)
+		p.Faults = append(p.Faults, Fault{Seam: "write", Key: "uc", Count: -1, Lat: int64(rng.Dur(300*time.Millisecond, 2900*time.Millisecond))})
+		p.Class += "+slow-unicast"
+	}
 	p.Horizon = int64(horizon)
 	if rng.Bool(0.25) {
 		secondInterface(rng, p)
